@@ -1,6 +1,70 @@
 #![allow(unused, non_snake_case, non_upper_case_globals)]
 use vstd::prelude::*;
 verus! {
+// ---- include lib/stdspecs.vrs ----
+// Specifications of core integer methods that vstd 0.2026.09.13 does not provide (trusted; each mirrors the std documentation).
+// Included by every unit so that an edited body that starts using one of them is still decided.
+pub assume_specification[ i8::div_euclid ](x: i8, y: i8) -> (r: i8) requires y != 0, !(x == i8::MIN && y == -1), ensures y > 0 ==> r as int == (x as int) / (y as int);
+pub assume_specification[ i8::rem_euclid ](x: i8, y: i8) -> (r: i8) requires y != 0, !(x == i8::MIN && y == -1), ensures y > 0 ==> r as int == (x as int) % (y as int), y < 0 ==> r as int == (x as int) % (-(y as int));
+pub assume_specification[ i8::abs ](x: i8) -> (r: i8) requires x != i8::MIN, ensures r as int == (if x < 0 { -(x as int) } else { x as int });
+pub assume_specification[ i8::signum ](x: i8) -> (r: i8) ensures r == (if x > 0 { 1int } else if x < 0 { -1int } else { 0int });
+pub assume_specification[ i8::is_positive ](x: i8) -> (r: bool) ensures r == (x > 0);
+pub assume_specification[ i8::is_negative ](x: i8) -> (r: bool) ensures r == (x < 0);
+pub assume_specification[ i8::checked_neg ](x: i8) -> (r: Option<i8>) ensures x == i8::MIN ==> r.is_none(), x != i8::MIN ==> r == Some((-x) as i8);
+pub assume_specification[ i8::saturating_add ](x: i8, y: i8) -> (r: i8) ensures i8::MIN <= x + y <= i8::MAX ==> r == x + y, x + y > i8::MAX ==> r == i8::MAX, x + y < i8::MIN ==> r == i8::MIN;
+pub assume_specification[ i8::saturating_sub ](x: i8, y: i8) -> (r: i8) ensures i8::MIN <= x - y <= i8::MAX ==> r == x - y, x - y > i8::MAX ==> r == i8::MAX, x - y < i8::MIN ==> r == i8::MIN;
+pub assume_specification[ i8::saturating_neg ](x: i8) -> (r: i8) ensures x == i8::MIN ==> r == i8::MAX, x != i8::MIN ==> r == -x;
+pub assume_specification[ i8::unsigned_abs ](x: i8) -> (r: u8) ensures r as int == (if x < 0 { -(x as int) } else { x as int });
+pub assume_specification[ i8::checked_abs ](x: i8) -> (r: Option<i8>) ensures x == i8::MIN ==> r.is_none(), x != i8::MIN ==> r == Some((if x < 0 { -x } else { x as int }) as i8);
+pub assume_specification[ i16::div_euclid ](x: i16, y: i16) -> (r: i16) requires y != 0, !(x == i16::MIN && y == -1), ensures y > 0 ==> r as int == (x as int) / (y as int);
+pub assume_specification[ i16::rem_euclid ](x: i16, y: i16) -> (r: i16) requires y != 0, !(x == i16::MIN && y == -1), ensures y > 0 ==> r as int == (x as int) % (y as int), y < 0 ==> r as int == (x as int) % (-(y as int));
+pub assume_specification[ i16::abs ](x: i16) -> (r: i16) requires x != i16::MIN, ensures r as int == (if x < 0 { -(x as int) } else { x as int });
+pub assume_specification[ i16::signum ](x: i16) -> (r: i16) ensures r == (if x > 0 { 1int } else if x < 0 { -1int } else { 0int });
+pub assume_specification[ i16::is_positive ](x: i16) -> (r: bool) ensures r == (x > 0);
+pub assume_specification[ i16::is_negative ](x: i16) -> (r: bool) ensures r == (x < 0);
+pub assume_specification[ i16::checked_neg ](x: i16) -> (r: Option<i16>) ensures x == i16::MIN ==> r.is_none(), x != i16::MIN ==> r == Some((-x) as i16);
+pub assume_specification[ i16::saturating_add ](x: i16, y: i16) -> (r: i16) ensures i16::MIN <= x + y <= i16::MAX ==> r == x + y, x + y > i16::MAX ==> r == i16::MAX, x + y < i16::MIN ==> r == i16::MIN;
+pub assume_specification[ i16::saturating_sub ](x: i16, y: i16) -> (r: i16) ensures i16::MIN <= x - y <= i16::MAX ==> r == x - y, x - y > i16::MAX ==> r == i16::MAX, x - y < i16::MIN ==> r == i16::MIN;
+pub assume_specification[ i16::saturating_neg ](x: i16) -> (r: i16) ensures x == i16::MIN ==> r == i16::MAX, x != i16::MIN ==> r == -x;
+pub assume_specification[ i16::unsigned_abs ](x: i16) -> (r: u16) ensures r as int == (if x < 0 { -(x as int) } else { x as int });
+pub assume_specification[ i16::checked_abs ](x: i16) -> (r: Option<i16>) ensures x == i16::MIN ==> r.is_none(), x != i16::MIN ==> r == Some((if x < 0 { -x } else { x as int }) as i16);
+pub assume_specification[ i32::div_euclid ](x: i32, y: i32) -> (r: i32) requires y != 0, !(x == i32::MIN && y == -1), ensures y > 0 ==> r as int == (x as int) / (y as int);
+pub assume_specification[ i32::rem_euclid ](x: i32, y: i32) -> (r: i32) requires y != 0, !(x == i32::MIN && y == -1), ensures y > 0 ==> r as int == (x as int) % (y as int), y < 0 ==> r as int == (x as int) % (-(y as int));
+pub assume_specification[ i32::abs ](x: i32) -> (r: i32) requires x != i32::MIN, ensures r as int == (if x < 0 { -(x as int) } else { x as int });
+pub assume_specification[ i32::signum ](x: i32) -> (r: i32) ensures r == (if x > 0 { 1int } else if x < 0 { -1int } else { 0int });
+pub assume_specification[ i32::is_positive ](x: i32) -> (r: bool) ensures r == (x > 0);
+pub assume_specification[ i32::is_negative ](x: i32) -> (r: bool) ensures r == (x < 0);
+pub assume_specification[ i32::checked_neg ](x: i32) -> (r: Option<i32>) ensures x == i32::MIN ==> r.is_none(), x != i32::MIN ==> r == Some((-x) as i32);
+pub assume_specification[ i32::saturating_add ](x: i32, y: i32) -> (r: i32) ensures i32::MIN <= x + y <= i32::MAX ==> r == x + y, x + y > i32::MAX ==> r == i32::MAX, x + y < i32::MIN ==> r == i32::MIN;
+pub assume_specification[ i32::saturating_sub ](x: i32, y: i32) -> (r: i32) ensures i32::MIN <= x - y <= i32::MAX ==> r == x - y, x - y > i32::MAX ==> r == i32::MAX, x - y < i32::MIN ==> r == i32::MIN;
+pub assume_specification[ i32::saturating_neg ](x: i32) -> (r: i32) ensures x == i32::MIN ==> r == i32::MAX, x != i32::MIN ==> r == -x;
+pub assume_specification[ i32::unsigned_abs ](x: i32) -> (r: u32) ensures r as int == (if x < 0 { -(x as int) } else { x as int });
+pub assume_specification[ i32::checked_abs ](x: i32) -> (r: Option<i32>) ensures x == i32::MIN ==> r.is_none(), x != i32::MIN ==> r == Some((if x < 0 { -x } else { x as int }) as i32);
+pub assume_specification[ i64::div_euclid ](x: i64, y: i64) -> (r: i64) requires y != 0, !(x == i64::MIN && y == -1), ensures y > 0 ==> r as int == (x as int) / (y as int);
+pub assume_specification[ i64::rem_euclid ](x: i64, y: i64) -> (r: i64) requires y != 0, !(x == i64::MIN && y == -1), ensures y > 0 ==> r as int == (x as int) % (y as int), y < 0 ==> r as int == (x as int) % (-(y as int));
+pub assume_specification[ i64::abs ](x: i64) -> (r: i64) requires x != i64::MIN, ensures r as int == (if x < 0 { -(x as int) } else { x as int });
+pub assume_specification[ i64::signum ](x: i64) -> (r: i64) ensures r == (if x > 0 { 1int } else if x < 0 { -1int } else { 0int });
+pub assume_specification[ i64::is_positive ](x: i64) -> (r: bool) ensures r == (x > 0);
+pub assume_specification[ i64::is_negative ](x: i64) -> (r: bool) ensures r == (x < 0);
+pub assume_specification[ i64::checked_neg ](x: i64) -> (r: Option<i64>) ensures x == i64::MIN ==> r.is_none(), x != i64::MIN ==> r == Some((-x) as i64);
+pub assume_specification[ i64::saturating_add ](x: i64, y: i64) -> (r: i64) ensures i64::MIN <= x + y <= i64::MAX ==> r == x + y, x + y > i64::MAX ==> r == i64::MAX, x + y < i64::MIN ==> r == i64::MIN;
+pub assume_specification[ i64::saturating_sub ](x: i64, y: i64) -> (r: i64) ensures i64::MIN <= x - y <= i64::MAX ==> r == x - y, x - y > i64::MAX ==> r == i64::MAX, x - y < i64::MIN ==> r == i64::MIN;
+pub assume_specification[ i64::saturating_neg ](x: i64) -> (r: i64) ensures x == i64::MIN ==> r == i64::MAX, x != i64::MIN ==> r == -x;
+pub assume_specification[ i64::unsigned_abs ](x: i64) -> (r: u64) ensures r as int == (if x < 0 { -(x as int) } else { x as int });
+pub assume_specification[ i64::checked_abs ](x: i64) -> (r: Option<i64>) ensures x == i64::MIN ==> r.is_none(), x != i64::MIN ==> r == Some((if x < 0 { -x } else { x as int }) as i64);
+pub assume_specification[ i128::div_euclid ](x: i128, y: i128) -> (r: i128) requires y != 0, !(x == i128::MIN && y == -1), ensures y > 0 ==> r as int == (x as int) / (y as int);
+pub assume_specification[ i128::rem_euclid ](x: i128, y: i128) -> (r: i128) requires y != 0, !(x == i128::MIN && y == -1), ensures y > 0 ==> r as int == (x as int) % (y as int), y < 0 ==> r as int == (x as int) % (-(y as int));
+pub assume_specification[ i128::abs ](x: i128) -> (r: i128) requires x != i128::MIN, ensures r as int == (if x < 0 { -(x as int) } else { x as int });
+pub assume_specification[ i128::signum ](x: i128) -> (r: i128) ensures r == (if x > 0 { 1int } else if x < 0 { -1int } else { 0int });
+pub assume_specification[ i128::is_positive ](x: i128) -> (r: bool) ensures r == (x > 0);
+pub assume_specification[ i128::is_negative ](x: i128) -> (r: bool) ensures r == (x < 0);
+pub assume_specification[ i128::checked_neg ](x: i128) -> (r: Option<i128>) ensures x == i128::MIN ==> r.is_none(), x != i128::MIN ==> r == Some((-x) as i128);
+pub assume_specification[ i128::saturating_add ](x: i128, y: i128) -> (r: i128) ensures i128::MIN <= x + y <= i128::MAX ==> r == x + y, x + y > i128::MAX ==> r == i128::MAX, x + y < i128::MIN ==> r == i128::MIN;
+pub assume_specification[ i128::saturating_sub ](x: i128, y: i128) -> (r: i128) ensures i128::MIN <= x - y <= i128::MAX ==> r == x - y, x - y > i128::MAX ==> r == i128::MAX, x - y < i128::MIN ==> r == i128::MIN;
+pub assume_specification[ i128::saturating_neg ](x: i128) -> (r: i128) ensures x == i128::MIN ==> r == i128::MAX, x != i128::MIN ==> r == -x;
+pub assume_specification[ i128::unsigned_abs ](x: i128) -> (r: u128) ensures r as int == (if x < 0 { -(x as int) } else { x as int });
+pub assume_specification[ i128::checked_abs ](x: i128) -> (r: Option<i128>) ensures x == i128::MIN ==> r.is_none(), x != i128::MIN ==> r == Some((if x < 0 { -x } else { x as int }) as i128);
+
 // ---- include lib/rangeint.vrs ----
 // GENERATED by lib/gen_rangeint.py -- the rangeint model (T2).  Do not edit by hand.
 use vstd::std_specs::cmp::*;
@@ -6282,6 +6346,7 @@ pub open spec fn legal_inc_timestamp(u: Unit, inc: int) -> bool { unit_rank(u) <
 
 pub open spec fn DAY_NS() -> int { 86_400_000_000_000 }
 /// a legal increment times its unit divides one civil day
+#[verifier::spinoff_prover]
 pub proof fn lemma_div_chain(ns: int, per: int, l: int, c: int, inc: int)
     requires ns > 0, per == l * c, c > 0, ns * per == DAY_NS(), 0 < inc, (0 < inc < l && l % inc == 0) || (inc <= per && per % inc == 0),
     ensures 0 < ns * inc <= DAY_NS(), DAY_NS() % (ns * inc) == 0,
@@ -6303,22 +6368,24 @@ pub proof fn lemma_div_chain(ns: int, per: int, l: int, c: int, inc: int)
     assert(0 < ns * inc <= DAY_NS()) by (nonlinear_arith) requires 0 < inc <= per, ns > 0, ns * per == DAY_NS();
     vstd::arithmetic::div_mod::lemma_mod_multiples_basic(m, ns * inc);
 }
+#[verifier::spinoff_prover]
 pub proof fn lemma_legal_divides_day(u: Unit, inc: int)
     requires legal_inc_limit(u, inc) || legal_inc_timestamp(u, inc) || (u == Unit::Day && inc == 1),
     ensures 0 < unit_ns(u) * inc <= DAY_NS(), DAY_NS() % (unit_ns(u) * inc) == 0,
 {
     match u {
-        Unit::Nanosecond => lemma_div_chain(1, 86_400_000_000_000, 1_000, 86_400_000_000, inc),
-        Unit::Microsecond => lemma_div_chain(1_000, 86_400_000_000, 1_000, 86_400_000, inc),
-        Unit::Millisecond => lemma_div_chain(1_000_000, 86_400_000, 1_000, 86_400, inc),
-        Unit::Second => lemma_div_chain(1_000_000_000, 86_400, 60, 1_440, inc),
-        Unit::Minute => lemma_div_chain(60_000_000_000, 1_440, 60, 24, inc),
-        Unit::Hour => lemma_div_chain(3_600_000_000_000, 24, 24, 1, inc),
+        Unit::Nanosecond => { assert(unit_ns(u) == 1 && unit_limit(u) == 1_000 && unit_per_day(u) == 86_400_000_000_000); lemma_div_chain(1, 86_400_000_000_000, 1_000, 86_400_000_000, inc); }
+        Unit::Microsecond => { assert(unit_ns(u) == 1_000 && unit_limit(u) == 1_000 && unit_per_day(u) == 86_400_000_000); lemma_div_chain(1_000, 86_400_000_000, 1_000, 86_400_000, inc); }
+        Unit::Millisecond => { assert(unit_ns(u) == 1_000_000 && unit_limit(u) == 1_000 && unit_per_day(u) == 86_400_000); lemma_div_chain(1_000_000, 86_400_000, 1_000, 86_400, inc); }
+        Unit::Second => { assert(unit_ns(u) == 1_000_000_000 && unit_limit(u) == 60 && unit_per_day(u) == 86_400); lemma_div_chain(1_000_000_000, 86_400, 60, 1_440, inc); }
+        Unit::Minute => { assert(unit_ns(u) == 60_000_000_000 && unit_limit(u) == 60 && unit_per_day(u) == 1_440); lemma_div_chain(60_000_000_000, 1_440, 60, 24, inc); }
+        Unit::Hour => { assert(unit_ns(u) == 3_600_000_000_000 && unit_limit(u) == 24 && unit_per_day(u) == 24); lemma_div_chain(3_600_000_000_000, 24, 24, 1, inc); }
         Unit::Day => { assert(unit_rank(u) == 6); assert(inc == 1); assert(unit_ns(u) == DAY_NS()); assert(unit_ns(u) * inc == DAY_NS()) by (nonlinear_arith) requires inc == 1, unit_ns(u) == DAY_NS(); }
         _ => { assert(unit_rank(u) >= 7); }
     }
 }
 /// rounding a time of day with an increment that divides the day lands in 0..=one day
+#[verifier::spinoff_prover]
 pub proof fn lemma_round_in_day(mode: RoundMode, q: int, i: int, r: int)
     requires round_ok(mode, q, i, r), 0 <= q < DAY_NS(), 0 < i, DAY_NS() % i == 0,
     ensures 0 <= r <= DAY_NS(),
@@ -6504,6 +6571,7 @@ pub enum RoundMode {
 
 impl RoundMode {
 // @fn RoundMode::round_by_unit_in_nanoseconds @src src/util/round/mode.rs:97
+#[verifier::spinoff_prover]
 pub fn round_by_unit_in_nanoseconds(
         self,
         quantity: impl RInto<NoUnits128>,
@@ -6526,6 +6594,7 @@ pub fn round_by_unit_in_nanoseconds(
 
 impl RoundMode {
 // @fn RoundMode::round @src src/util/round/mode.rs:110
+#[verifier::spinoff_prover]
 pub fn round(
         self,
         quantity: impl RInto<NoUnits128>,
@@ -6545,6 +6614,7 @@ pub fn round(
 }
 
 // @fn RoundMode::round::inner @src src/util/round/mode.rs:116
+#[verifier::spinoff_prover]
 pub fn inner(
             mode: RoundMode,
             quantity: NoUnits128,
@@ -6665,6 +6735,7 @@ pub enum Unit {
 
 impl Unit {
 // @fn Unit::nanoseconds @src src/span.rs:4175
+#[verifier::spinoff_prover]
 pub fn nanoseconds(self) -> (r: NoUnits128)
     requires
         unit_rank(self) <= 7,
@@ -6695,6 +6766,7 @@ pub struct TimestampRound {
 
 impl TimestampRound {
 // @fn TimestampRound::round @src src/timestamp.rs:3646
+#[verifier::spinoff_prover]
 pub fn round(
         &self,
         timestamp: Timestamp,
@@ -6740,6 +6812,7 @@ pub struct TimeRound {
 
 impl TimeRound {
 // @fn TimeRound::round @src src/civil/time.rs:2826
+#[verifier::spinoff_prover]
 pub fn round(&self, t: Time) -> (res: Result<Time, Error>)
     requires
         t.wf(),
@@ -6776,6 +6849,7 @@ pub struct DateTimeRound {
 
 impl DateTimeRound {
 // @fn DateTimeRound::round @src src/civil/datetime.rs:3521
+#[verifier::spinoff_prover]
 pub fn round(&self, dt: DateTime) -> (res: Result<DateTime, Error>)
     requires
         dt.wf(),
@@ -6851,6 +6925,7 @@ pub struct SignedDurationRound {
 
 impl SignedDurationRound {
 // @fn SignedDurationRound::round @src src/signed_duration.rs:2484
+#[verifier::spinoff_prover]
 pub fn round(&self, dur: SignedDuration) -> (res: Result<SignedDuration, Error>)
     requires
         dur.wf(),
